@@ -85,6 +85,29 @@ def live_names(fn):
     return live
 
 
+def m_ok(mode, s, val=None):
+    if mode[0] == 'effv':
+        return f'(IDone {val}, {s})'
+    return f'(OOk, {s})'
+
+
+def m_raise(mode, e, s):
+    return f'(IRaise {e}, {s})' if mode[0] == 'effv' else f'({e}, {s})'
+
+
+def m_wrap(mode, r):
+    """an R-valued term used as the final outcome."""
+    return f'(as_iter {r})' if mode[0] == 'effv' else r
+
+
+def m_andthen(mode):
+    return 'andthen_v' if mode[0] == 'effv' else 'andthen'
+
+
+def m_lift(mode):
+    return 'lift_v' if mode[0] == 'effv' else 'lift'
+
+
 class Unit:
     """one class (or module) worth of methods translated into one Coq Section."""
 
@@ -152,6 +175,13 @@ class Unit:
                     raise Untranslatable('is None on non-option')
                 isn = f'(match {t} with None => true | Some _ => false end)'
                 return self.coerce(isn if isinstance(op, ast.Is) else f'(negb {isn})', 'bool', want)
+            if isinstance(op, (ast.Eq, ast.NotEq)):
+                a, ta = self.expr(e.left, env)
+                b, tb = self.expr(rhs, env)
+                if ta == 'Z' and tb == 'Z':
+                    t = f'(Z.eqb {a} {b})'
+                    return self.coerce(t if isinstance(op, ast.Eq) else f'(negb {t})', 'bool', want)
+                raise Untranslatable('== types')
             if isinstance(op, (ast.In, ast.NotIn)):
                 k, kty = self.expr(e.left, env)
                 m, mty = self.expr(rhs, env)
@@ -172,6 +202,11 @@ class Unit:
             if ty != 'exn':
                 raise Untranslatable('isinstance on a non-exception')
             return self.coerce(f'(isinst errors_classes {t} [{coq_str(e.args[1].id)}])', 'bool', want)
+        if isinstance(e, ast.Call) and isinstance(e.func, ast.Name) and e.func.id in self.spec.get('functions', {}) \
+                and len(e.args) == 1 and not e.keywords:
+            fn, argty, resty = self.spec['functions'][e.func.id]
+            a, _ = self.expr(e.args[0], env, argty)
+            return self.coerce(f'({fn} {a})', resty, want)
         if isinstance(e, ast.Call) and isinstance(e.func, ast.Name) and e.func.id in self.spec['ctors'] \
                 and len(e.args) == 1 and not e.keywords:
             argty, resty = self.spec['ctors'][e.func.id]
@@ -184,6 +219,8 @@ class Unit:
             return (t, ty)
         if want == f'option {ty}' or want == f'option ({ty})':
             return (f'(Some {t})', want)
+        if want == 'val' and ty == 'option val':
+            return (f'(match {t} with Some v => v | None => VNone end)', 'val')
         raise Untranslatable(f'type {ty} where {want} expected')
 
     def truth(self, e, env):
@@ -196,6 +233,12 @@ class Unit:
             return f'(match {t} with [] => false | _ => true end)'
         if ty == 'option string':
             return f'(match {t} with Some x => negb (String.eqb x "") | None => false end)'
+        if ty == 'option val':
+            return f'(opt_truth {t})'
+        if ty == 'Z':
+            return f'(negb (Z.eqb {t} 0))'
+        if ty == 'val':
+            return f'(py_truth {t})'
         if ty.startswith('option (list'):
             return f'(match {t} with Some (_ :: _) => true | _ => false end)'
         raise Untranslatable(f'truthiness of {ty}')
@@ -227,6 +270,10 @@ class Unit:
                 guard = 'match {p} with [] => false | _ => true end'
             elif inner in self.spec.get('always_truthy', ()):
                 guard = None
+            elif inner == 'Z':
+                guard = 'negb (Z.eqb {p} 0)'
+            elif inner == 'val':
+                guard = 'py_truth {p}'
             else:
                 raise Untranslatable(f'truthiness of option {inner}')
             return (x, inner, guard, not neg)
@@ -248,10 +295,14 @@ class Unit:
                 if st.value is None:
                     return self.expr(ast.Constant(value=None), env, mode[1])[0]
                 return self.expr(st.value, env, mode[1])[0]
-            if st.value is not None and not (isinstance(st.value, ast.Constant) and st.value.value is None):
-                raise Untranslatable('return with a value in an effectful method')
             if self.in_protected:
                 raise Untranslatable('return inside try/for body')
+            if mode[0] == 'effv':
+                if st.value is None:
+                    raise Untranslatable('bare return in a value-returning method')
+                return m_ok(mode, s, self.expr(st.value, env, mode[1])[0])
+            if st.value is not None and not (isinstance(st.value, ast.Constant) and st.value.value is None):
+                raise Untranslatable('return with a value in an effectful method')
             return f'(OOk, {s})'
         if isinstance(st, ast.Raise):
             if mode[0] == 'pure':
@@ -259,27 +310,46 @@ class Unit:
             if st.exc is None:
                 if cur is None:
                     raise Untranslatable('bare raise outside a handler')
-                return f'({cur}, {s})'
+                return m_raise(mode, cur, s)
             if isinstance(st.exc, ast.Name) and st.exc.id in env and env[st.exc.id][1] == 'exn' and st.cause is None:
-                return f'({env[st.exc.id][0]}, {s})'
+                return m_raise(mode, env[st.exc.id][0], s)
             if isinstance(st.exc, ast.Name) and st.exc.id == 'HandledError' and isinstance(st.cause, ast.Name) \
                     and st.cause.id in env and env[st.cause.id][1] == 'exn':
-                return f'(raise_handled_from {env[st.cause.id][0]} {s})'
+                return m_wrap(mode, f'(raise_handled_from {env[st.cause.id][0]} {s})')
             if isinstance(st.exc, ast.Call) and isinstance(st.exc.func, ast.Name) and len(st.exc.args) == 1 \
                     and isinstance(st.exc.args[0], ast.Constant) and isinstance(st.exc.args[0].value, str) \
                     and st.cause is None:
-                return f'(raise_new {coq_str(st.exc.func.id)} {coq_str(st.exc.args[0].value)} {s})'
+                return m_wrap(mode, f'(raise_new {coq_str(st.exc.func.id)} {coq_str(st.exc.args[0].value)} {s})')
             raise Untranslatable('raise form')
         if isinstance(st, ast.AugAssign) and isinstance(st.target, ast.Name) and st.target.id not in self.live:
             return cont(s, env)
         if isinstance(st, ast.Assign) and len(st.targets) == 1 and isinstance(st.targets[0], ast.Name) \
-                and mode[0] == 'eff' and self.eff_value(st.value) is not None:
+                and mode[0] in ('eff', 'effv') and self.eff_value(st.value) is not None:
             x = st.targets[0].id
             attr, fn, ty = self.eff_value(st.value)
-            a, _ = self.expr(attr, env)
+            a, _ = self.expr(attr, env, 'val')
             nx = self.new(x + '_')
             self.assign_log.append(x)
-            return f'(lift ({fn} {s} {a}) {s} (fun {nx} => {cont(s, {**env, x: (nx, ty)})}))'
+            return f'({m_lift(mode)} ({fn} {s} {a}) {s} (fun {nx} => {cont(s, {**env, x: (nx, ty)})}))'
+        # context['k'] = v
+        if isinstance(st, ast.Assign) and len(st.targets) == 1 and isinstance(st.targets[0], ast.Subscript) \
+                and isinstance(st.targets[0].value, ast.Name) and st.targets[0].value.id == 'context' \
+                and isinstance(st.targets[0].slice, ast.Constant) and isinstance(st.targets[0].slice.value, str) \
+                and mode[0] in ('eff', 'effv'):
+            v, ty = self.expr(st.value, env)
+            if ty == 'Z':
+                v = f'(VInt {v})'
+            elif ty != 'val':
+                raise Untranslatable(f'context[...] = value of type {ty}')
+            s2 = self.new('s')
+            return (f'(let {s2} := set_ctx {s} (sset {coq_str(st.targets[0].slice.value)} {v} (ctx {s})) in '
+                    f'{cont(s2, env)})')
+        # self.field = v : a field of the decorator object, read later through the callback
+        if isinstance(st, ast.Assign) and len(st.targets) == 1 and isinstance(st.targets[0], ast.Attribute) \
+                and isinstance(st.targets[0].value, ast.Name) and st.targets[0].value.id == 'self' \
+                and st.targets[0].attr in self.spec.get('fields_rw', ()):
+            v, ty = self.expr(st.value, env)
+            return cont(s, {**env, 'self.' + st.targets[0].attr: (v, ty)})
         if isinstance(st, ast.Assign) and len(st.targets) == 1 and isinstance(st.targets[0], ast.Name):
             x = st.targets[0].id
             if x not in self.live:
@@ -290,6 +360,17 @@ class Unit:
             return f'(let {nx} := {t} in {cont(s, {**env, x: (nx, ty)})})'
         if isinstance(st, ast.If) and self.droppable(st.body) and self.droppable(st.orelse):
             return cont(s, env)          # both branches only log
+        if isinstance(st, ast.If) and isinstance(st.test, ast.Compare) and len(st.test.ops) == 1 \
+                and isinstance(st.test.ops[0], (ast.In, ast.NotIn)) and mode[0] in ('eff', 'effv'):
+            a, ta = self.expr(st.test.left, env)
+            b, tb = self.expr(st.test.comparators[0], env)
+            if ta == 'string' and tb == 'val':
+                bn = self.new('b')
+                yes = self.block(st.body + rest, s, env, cur, k, mode)
+                no = self.block(st.orelse + rest, s, env, cur, k, mode)
+                if isinstance(st.test.ops[0], ast.NotIn):
+                    yes, no = no, yes
+                return f'({m_lift(mode)} (in_names {a} {b}) {s} (fun {bn} => if {bn} then {yes} else {no}))'
         if isinstance(st, ast.If):
             nar = self.narrowing(st.test, env)
             if nar is not None:
@@ -313,7 +394,7 @@ class Unit:
         if isinstance(st, ast.Expr) and isinstance(st.value, ast.Call):
             call = self.call(st.value, env, s)
             s2 = self.new('s')
-            return f'(andthen {call} (fun {s2} => {cont(s2, env)}))'
+            return f'({m_andthen(mode)} {call} (fun {s2} => {cont(s2, env)}))'
         if isinstance(st, ast.For) and isinstance(st.target, ast.Name) and not st.orelse:
             xs, ty = self.expr(st.iter, env)
             if not ty.startswith('list '):
@@ -321,8 +402,10 @@ class Unit:
             x = self.new(st.target.id + '_')
             s1, s2 = self.new('s'), self.new('s')
             body = self.protected(st.body, s1, {**env, st.target.id: (x, ty[5:].strip('()') if ty[5:].startswith('(') else ty[5:])}, cur)
-            return (f'(andthen (for_each {xs} (fun {x} {s1} => {body}) {s}) '
+            return (f'({m_andthen(mode)} (for_each {xs} (fun {x} {s1} => {body}) {s}) '
                     f'(fun {s2} => {cont(s2, env)}))')
+        if isinstance(st, ast.Try) and st.finalbody and mode[0] != 'eff':
+            raise Untranslatable('finally in a value-returning method')
         if isinstance(st, ast.Try) and st.finalbody:
             inner_try = ast.Try(body=st.body, handlers=st.handlers, orelse=st.orelse, finalbody=[])
             inner = self.protected([inner_try], s, env, cur)
@@ -334,9 +417,13 @@ class Unit:
                     f'| {r} => {r} end end)')
         if isinstance(st, ast.Try) and not st.finalbody:
             s1 = self.new('s')
+            tbody, hoisted = list(st.body), []
+            while tbody and isinstance(tbody[-1], ast.Assign) and isinstance(tbody[-1].value, ast.Constant):
+                hoisted.insert(0, tbody.pop())      # `x = <constant>` cannot raise: same as in the else part
+            st = ast.Try(body=tbody, handlers=st.handlers, orelse=hoisted + list(st.orelse), finalbody=[])
             body = self.protected(st.body, s, env, cur)
             ev = self.new('e')
-            arms = f'({ev}, {s1})'
+            arms = m_raise(mode, ev, s1)
             for h in reversed(st.handlers):
                 if h.type is None:
                     raise Untranslatable('bare except')
@@ -350,7 +437,7 @@ class Unit:
                 hbody = self.block(h.body, s1, henv, ev, lambda s2, env2: self.block(rest, s2, self.drop(env2, h.name, env), cur, k, mode), mode)
                 arms = f'(if isinst errors_classes {ev} {names} then {hbody} else {arms})'
             ok = self.block(st.orelse + rest, s1, env, cur, k, mode)
-            return (f'(match {body} with | (OOk, {s1}) => {ok} | (OUnsup, {s1}) => (OUnsup, {s1}) '
+            return (f'(match {body} with | (OOk, {s1}) => {ok} | (OUnsup, {s1}) => {m_raise(mode, "OUnsup", s1)} '
                     f'| ({ev}, {s1}) => {arms} end)')
         raise Untranslatable(f'statement {type(st).__name__}')
 
@@ -365,6 +452,10 @@ class Unit:
                 and len(e.keywords) == 1 and e.keywords[0].arg == 'out_type' \
                 and isinstance(e.keywords[0].value, ast.Name) and e.keywords[0].value.id == 'bool':
             return (e.args[0], 'as_bool', 'bool')
+        if isinstance(e, ast.Call) and isinstance(e.func, ast.Attribute) and isinstance(e.func.value, ast.Name) \
+                and e.func.value.id == 'context' and e.func.attr == 'get_formatted_value' and len(e.args) == 1 \
+                and not e.keywords:
+            return (e.args[0], 'fmt', 'val')
         return None
 
     @staticmethod
@@ -396,6 +487,16 @@ class Unit:
 
     def call(self, c, env, s):
         f = c.func
+        if isinstance(f, ast.Name) and f.id in self.spec.get('callbacks', {}):
+            prim, reads = self.spec['callbacks'][f.id]
+            if not all(self.is_context_arg(a) for a in c.args) or c.keywords:
+                raise Untranslatable('callback arguments')
+            extra = []
+            for r in reads:
+                if r not in env:
+                    raise Untranslatable(f'{r} not set before the callback')
+                extra.append(env[r][0])
+            return f'({prim} {" ".join(extra)} {s})' if extra else f'({prim} {s})'
         if not isinstance(f, ast.Attribute):
             raise Untranslatable('call of a non-method')
         if isinstance(f.value, ast.Name) and f.value.id == 'self':
@@ -468,7 +569,8 @@ class Unit:
         head_args = ' '.join(f'({pn} : {pty})' for pn, pty in params)
         try:
             fn = find_function(tree, f"{self.spec['cls']}.{name}")
-            got = [a.arg for a in fn.args.args if a.arg not in ('self', 'context')]
+            got = [a.arg for a in fn.args.args if a.arg not in ('self', 'context')
+                   and a.arg not in self.spec.get('callbacks', {})]
             if got != [pn for pn, _ in params]:
                 raise Untranslatable(f'signature changed: {got}')
             # python defaults must agree with the table
@@ -489,6 +591,11 @@ class Unit:
                     raise Untranslatable('falls off the end of a pure method')
                 body = self.block(fn.body, None, env, None, fall, ('pure', sig['ret']))
                 text = f"Definition {sig['coq']} {head_args} : {sig['ret']} :=\n  {body}."
+            elif sig['kind'] == 'effv':
+                def fall_v(s, env2):
+                    raise Untranslatable('falls off the end of a value-returning method')
+                body = self.block(fn.body, 's', env, None, fall_v, ('effv', sig['ret']))
+                text = f"Definition {sig['coq']} {head_args} (s : st) : iter_result * st :=\n  {body}."
             else:
                 body = self.block(fn.body, 's', env, None, lambda s, e: f'(OOk, {s})', ('eff',))
                 text = f"Definition {sig['coq']} {head_args} (s : st) : R :=\n  {body}."
@@ -591,7 +698,39 @@ STEP = {
     },
     'order': ['invoke_step', 'run_conditional_decorators', 'run_foreach_or_conditional'],
 }
-UNITS = [STEPSRUNNER, STEP]
+RETRY = {
+    'file': 'pypyr/dsl.py', 'cls': 'RetryDecorator', 'section': 'GenRetry',
+    'variables': [
+        ('rc', 'rcfg', 'self: the retry decorator as written in the pipeline'),
+        ('prim_step_method', 'Z -> st -> R',
+         'step_method(context), run while self.retry_counter holds the given value'),
+    ],
+    'attrs': {'stop_on': ('(r_stopon rc)', 'option val'), 'retry_on': ('(r_retryon rc)', 'option val')},
+    'fields_rw': ('retry_counter',),
+    'callbacks': {'step_method': ('prim_step_method', ['self.retry_counter'])},
+    'functions': {'get_error_name': ('exn_error_name', 'exn', 'string')},
+    'fields': {('exn', '__cause__'): ('exn_cause', 'exn')},
+    'ctors': {}, 'obj_methods': {},
+    'methods': {'exec_iteration': {'kind': 'effv', 'coq': 'gen_retry_exec_iteration',
+                                   'params': [('counter', 'Z'), ('max', 'option Z')], 'ret': 'bool'}},
+    'order': ['exec_iteration'],
+}
+WHILE = {
+    'file': 'pypyr/dsl.py', 'cls': 'WhileDecorator', 'section': 'GenWhile',
+    'variables': [
+        ('w', 'wcfg', 'self: the while decorator as written in the pipeline'),
+        ('prim_step_method', 'Z -> st -> R',
+         'step_method(context), run while self.while_counter holds the given value'),
+    ],
+    'attrs': {'stop': ('(w_stop w)', 'option val')},
+    'fields_rw': ('while_counter',),
+    'callbacks': {'step_method': ('prim_step_method', ['self.while_counter'])},
+    'fields': {}, 'ctors': {}, 'obj_methods': {},
+    'methods': {'exec_iteration': {'kind': 'effv', 'coq': 'gen_while_exec_iteration',
+                                   'params': [('counter', 'Z')], 'ret': 'bool'}},
+    'order': ['exec_iteration'],
+}
+UNITS = [STEPSRUNNER, STEP, RETRY, WHILE]
 
 
 def pure_call_hook(unit):
